@@ -31,6 +31,26 @@ Fixpoint enc_routes (gw4h gw4 gw6h gw6 : Z) (n : nat) (l : list Z) : list Z :=
   | _, _ => []
   end.
 
+Fixpoint dec_cips (n : nat) (l : list Z) : list cip * list Z :=
+  match n, l with
+  | S n', a :: st :: pm :: um :: r =>
+      let '(is, r') := dec_cips n' r in ({| ci_addr := Z.to_N a; ci_valid := st =? 1; ci_pod := dec_bool pm; ci_uid := um |} :: is, r')
+  | _, _ => ([], l)
+  end.
+Fixpoint dec_cifs (n : nat) (l : list Z) : list cif :=
+  match n, l with
+  | S n', st :: mode :: n4 :: p4 :: n6 :: p6 :: k4 :: r =>
+      let '(v4, r1) := dec_cips (Z.to_nat k4) r in
+      match r1 with
+      | k6 :: r2 =>
+          let '(v6, r3) := dec_cips (Z.to_nat k6) r2 in
+          {| ce_inuse := st =? 1; ce_hp := mode =? 1; ce_net4 := Z.to_N n4; ce_plen4 := p4; ce_net6 := Z.to_N n6; ce_plen6 := p6;
+             ce_v4 := v4; ce_v6 := v6 |} :: dec_cifs n' r3
+      | [] => []
+      end
+  | _, _ => []
+  end.
+
 Definition run_c12 (i : list Z) : list Z :=
   match i with
   | 1 :: n :: r =>
@@ -59,6 +79,14 @@ Definition run_c12 (i : list Z) : list Z :=
            limit (dec_bool hpod) ing rti; limit (dec_bool hpod) egr rte;
            enc_bool tr; if dec_bool heni then vid else 0; dr; if dec_bool heni then erdma else 0; dpeer; nr]
           ++ enc_routes (enc_bool (dec_bool h4)) (if dec_bool h4 then g4 else 0) (enc_bool (dec_bool h6)) (if dec_bool h6 then g6 else 0) (Z.to_nat nr) routes
+      end
+  | [5; h4; i4; n4; p4; g4; h6; i6; n6; p6; g6; s4; s6; erdma] =>
+      1 :: local_to_rpc (dec_bool h4) (Z.to_N i4) (Z.to_N n4) p4 (Z.to_N g4) (dec_bool h6) (Z.to_N i6) (Z.to_N n6) p6 (Z.to_N g6)
+                        (dec_bool s4) (dec_bool s6) (dec_bool erdma)
+  | 6 :: en :: ne :: r =>
+      match crd_multi_ip (dec_bool en) (dec_cifs (Z.to_nat ne) r) with
+      | Some o => 1 :: o
+      | None => [0]
       end
   | _ => bad
   end.
@@ -123,6 +151,38 @@ Definition chk_c12 (i o : list Z) : bool :=
           (oh6 =? enc_bool (h6 =? 1)) && (if h6 =? 1 then (oi6 =? i6) && (op6 =? p6) && (og6 =? g6) else true) &&
           (oing =? (if 0 <? rti then rti / 8 else if dec_bool hpod then ing else 0)) &&
           (oegr =? (if 0 <? rte then rte / 8 else if dec_bool hpod then egr else 0))
+      | _ => true
+      end
+  | [5; h4; i4; n4; p4; g4; h6; i6; n6; p6; g6; s4; s6; erdma] =>
+      (* one configuration, the default-route one on the primary interface; the pod's addresses as sent; judged further by the model comparison *)
+      match o with
+      | 1 :: oh4 :: oi4 :: _ :: _ :: _ :: _ :: _ :: oh6 :: oi6 :: _ :: _ :: _ :: _ :: _ :: _ :: _ :: ifc :: dr :: _ =>
+          (oh4 =? enc_bool (dec_bool h4)) && (if dec_bool h4 then oi4 =? i4 else true) &&
+          (oh6 =? enc_bool (dec_bool h6)) && (if dec_bool h6 then oi6 =? i6 else true) && is_primary ifc && (dr =? 1)
+      | _ => false
+      end
+  | 6 :: en :: ne :: r =>
+      let es := dec_cifs (Z.to_nat ne) r in
+      match o with
+      | 1 :: idx :: oh4 :: oi4 :: on4 :: ob4 :: op4 :: og4h :: og4 :: oh6 :: oi6 :: on6 :: ob6 :: op6 :: og6h :: og6 :: _ :: _ :: ifc :: dr :: _ =>
+          match nth_error es (Z.to_nat (idx - 1)) with
+          | None => false
+          | Some e =>
+              (* the address is one the record binds to this pod (valid, the pod's name, not another uid) on an attached interface;
+                 subnet and gateway are that interface's: gateway = third-from-last address, inside the subnet, not the pod's address *)
+              let famok (w : N) (oh oi on ob op ogh og : Z) (l : list cip) (net : N) (plen : Z) :=
+                if oh =? 1 then
+                  existsb (fun i => ip_match i && (Z.of_N (ci_addr i) =? oi)) l && (on =? 1) && (op =? plen)
+                  && (ob =? Z.of_N (net_base w net (Z.to_N plen)))
+                  && (if ogh =? 1 then in_subnet w (Z.to_N og) net plen && (Z.to_N og + 2 =? last_addr w net (Z.to_N plen))%N
+                                        && ((Z.to_N oi + 2 =? last_addr w net (Z.to_N plen))%N || negb (og =? oi))
+                      else true)
+                else true in
+              ce_inuse e && ((oh4 =? 1) || (oh6 =? 1)) &&
+              famok 32%N oh4 oi4 on4 ob4 op4 og4h og4 (ce_v4 e) (ce_net4 e) (ce_plen4 e) &&
+              famok 128%N oh6 oi6 on6 ob6 op6 og6h og6 (ce_v6 e) (ce_net6 e) (ce_plen6 e) &&
+              is_primary ifc && (dr =? 1)
+          end
       | _ => true
       end
   | _ => false
